@@ -106,3 +106,22 @@ def gen_hw(rng):
     cfg = {r: 3 for rs in decl.values() for r in rs}
     return {"yaml": full, "configs": [cfg], "family": "hw-" + name, "key": full, "hw": True, "plain_yaml": y,
             "arch": {"freq": freq, "bw": bw, "npe": npe + 1}}
+
+
+def hw_core():
+    """Fixed core: leader-follower intersections whose leader is each operand of the term (also the non-first ones)."""
+    out = []
+    cases = [("gemvL", {"A": ["K", "M"], "B": ["K"], "Z": ["M"]}, "Z[m] = A[k, m] * B[k]", ["K", "M"], "K", ["A", "B"]),
+             ("gemmL", {"A": ["K", "M"], "B": ["K", "N"], "Z": ["M", "N"]}, "Z[m, n] = A[k, m] * B[k, n]", ["K", "M", "N"], "K", ["A", "B"]),
+             ("takeL", {"A": ["K", "M"], "B": ["K"], "Z": ["M"]}, "Z[m] = take(A[k, m], B[k], 0)", ["K", "M"], "K", ["A", "B"]),
+             ("threeL", {"A": ["K", "M"], "B": ["K", "M"], "C": ["K"], "Z": ["M"]}, "Z[m] = A[k, m] * B[k, m] * C[k]", ["M", "K"], "K", ["A", "B", "C"])]
+    for name, decl, expr, lo, rank, leaders in cases:
+        ro = {t: concord(r, lo) for t, r in decl.items()}
+        y = mk_yaml(decl, [expr], ro=ro, lo={"Z": lo}, st={"Z": {"space": [], "time": lo}})
+        fmt = "format:\n" + "".join("  %s:\n    default:\n      rank-order: [%s]\n" % (t, ", ".join(ro[t])) + "".join("      %s:\n        format: C\n        pbits: 32\n" % r for r in ro[t]) for t in decl)
+        for L in leaders:
+            arch = "architecture:\n  Accel:\n  - name: System\n    attributes:\n      clock_frequency: 3\n    local:\n    - name: Isect\n      class: Intersector\n      attributes:\n        type: leader-follower\n    - name: FPMul\n      class: Compute\n      attributes:\n        type: mul\n"
+            b = "bindings:\n  Z:\n  - config: Accel\n    prefix: tmp/%s\n  - component: Isect\n    bindings:\n    - rank: %s\n      leader: %s\n  - component: FPMul\n    bindings:\n    - op: mul\n" % (name, rank, L)
+            out.append({"yaml": y + fmt + arch + b, "configs": [{r: 3 for rs in decl.values() for r in rs}], "family": "hw-core-" + name, "key": name + L,
+                        "hw": True, "plain_yaml": y, "arch": {}})
+    return out
